@@ -70,11 +70,11 @@ type scenario struct {
 	rank        []int // rank[i] = position of node i in XOR-distance order to the target
 	answers     [][]int
 	akind       []int
-	seed        []int // indices put into the local table
-	order       []int // preferred completion order (TLC-generated schedules); empty = seeded random
+	seed        []int   // indices put into the local table
+	order       []int   // preferred completion order (TLC-generated schedules); empty = seeded random
 	groups      [][]int // TLC-generated: replies delivered with no consumption in between (released together)
 	burst       bool    // seeded: whenever several queries are outstanding, let them all complete at the same moment
-	cancelAfter int   // cancel the context after this many completed queries (-1 = never)
+	cancelAfter int     // cancel the context after this many completed queries (-1 = never)
 	content     [][]byte
 }
 
